@@ -151,7 +151,7 @@ extern "C" void graphite2_verif_kern_resolved(const void *segp, const void *targ
 
 static Corpus g_c; static FaceCache *g_fc; static std::vector<std::string> g_syn; static std::vector<std::vector<std::string>> g_syntx; struct ECase { int kind, font, item, dir; }; static std::vector<ECase> g_ec;
 static void setup_e2e(Runner &r, const Tier &t) {
-    g_c.build({ "Awami_test.ttf", "Awami_compressed_test.ttf", "AwamiNastaliq-Regular.ttf" }, t.thorough ? 0 : 250, { 1, 3 }); g_ec.clear();
+    g_c.build({ "Awami_test.ttf", "Awami_compressed_test.ttf", "AwamiNastaliq-Regular.ttf" }, 0, { 1, 3 }); g_ec.clear();
     for (size_t i = 0; i < g_c.cases.size(); ++i) g_ec.push_back({ 0, g_c.cases[i].font, g_c.cases[i].item, g_c.cases[i].dir });
     g_syn = { gen_dir() + "/s_full.ttf", gen_dir() + "/s_full_rtl.ttf", gen_dir() + "/s_full_nosub.ttf" }; g_syntx.clear(); static const uint32_t alpha[7] = { 0x61, 0x62, 0x64, 0x20, 0x301, 0x300, 0x63 };
     for (size_t f = 0; f < g_syn.size(); ++f) { std::vector<std::string> tx; int maxlen = t.thorough ? 5 : 4; for (int L = 1; L <= maxlen; ++L) { int n = 1; for (int k = 0; k < L; ++k) n *= 7; for (int v = 0; v < n; ++v) { std::vector<uint8_t> b; int x = v, marks = 0; for (int k = 0; k < L; ++k) { if (x % 7 == 4 || x % 7 == 5) ++marks; ref::enc8(alpha[x % 7], b); x /= 7; } if (marks) tx.push_back(std::string(b.begin(), b.end())); } }
